@@ -4,7 +4,7 @@
 #   demo passes on the unchanged tree; with the patch: module builds, the affected packages' existing tests pass,
 #   the demo fails; then runs ./check CNN against the patched worktree. On success stores it under /verif/seeded/CNN/.
 set -u
-id=$1; src=${2:-/tmp/seeds/$id}
+id=$1; src=${2:-/tmp/seeds/$id}; store=${3:-$id}
 cd "$(dirname "$0")/.."
 wt=/tmp/confirmwt-$id-$$
 log=$(mktemp)
@@ -52,10 +52,10 @@ chk=$(VERIF_REPO=$wt ./check $id --tier ${TIER:-quick} 2>&1 | grep -E '^(OK|VIOL
 echo "$chk" >> $log
 echo "$id: demo_unchanged_exit=$r0 build=$rb existing_tests=$rt demo_patched_exit=$r1 check: $(echo $chk | cut -c1-160)"
 if [ $r0 -eq 0 ] && [ $rb -eq 0 ] && [ $rt -eq 0 ] && [ $r1 -ne 0 ]; then
-  mkdir -p seeded/$id
-  cp $patch seeded/$id/patch.diff; cp $src/$demo seeded/$id/; cp $src/run.txt seeded/$id/
+  mkdir -p seeded/$store
+  cp $patch seeded/$store/patch.diff; cp $src/$demo seeded/$store/; cp $src/run.txt seeded/$store/
   caught=false; case "$chk" in *VIOLATION*) caught=true;; esac
-  python3 - "$src/meta.json" "seeded/$id/meta.json" "$tp" "$run" "$caught" "$chk" <<'PY'
+  python3 - "$src/meta.json" "seeded/$store/meta.json" "$tp" "$run" "$caught" "$chk" <<'PY'
 import json,sys
 m=json.load(open(sys.argv[1]))
 m["confirmed_by_coordinator"]={"demo_passes_on_unchanged_tree":True,"module_builds_with_patch":True,
@@ -64,8 +64,8 @@ m["check_result_on_patched_tree"]=sys.argv[6]
 m["caught_by_check"]=sys.argv[5]=="true"
 json.dump(m,open(sys.argv[2],"w"),indent=1)
 PY
-  cp $log seeded/$id/confirm.log
-  echo "   stored in seeded/$id (caught=$caught)"
+  cp $log seeded/$store/confirm.log
+  echo "   stored in seeded/$store (caught=$caught)"
 else
   echo "   NOT CONFIRMED — see $log"; cp $log /tmp/confirm-$id.log
 fi
